@@ -131,11 +131,15 @@ Definition svc_external (c : Cluster) (svc : Service) : bool :=
   match s_type svc, svc_slices c svc with ExternalNameT, [] => true | _, _ => false end.
 
 (* cluster-IP mode applies (not to TransportServers; an Ingress keeps the DNS name of an
-   ExternalName service under NGINX Plus) *)
+   ExternalName service under NGINX Plus when that name:port can be formed, i.e. unless the
+   backend names a port the service does not have) *)
 Definition uses_cluster_ip (plus : bool) (c : Cluster) (svc : Service) (b : Backend) : bool :=
   match b_kind b with
   | KTS => false
-  | KIng => b_clusterip b && negb (svc_external c svc && plus)
+  | KIng => b_clusterip b &&
+            negb (svc_external c svc && plus &&
+                  (String.eqb (bp_name (b_port b)) "" ||
+                   match spec_ref_port (b_port b) (s_ports svc) with Some _ => true | None => false end))
   | KVS | KVSR => b_clusterip b
   end.
 
